@@ -320,6 +320,16 @@ def r33_3(ctx, F):
     tokenize = ctx.read('lib/tokenize.cpp')
     m = re.search(r'static\s+const\s+std::unordered_set<std::string>\s+keywords\s*=\s*\{(.*?)\};', tokenize, re.S)
     removed = set(re.findall(r'"(\w+)"', m.group(1))) if m else set()
+    mt = re.search(r'static\s+const\s+std::unordered_set<std::string>\s+stdTypes\s*=\s*\{(.*?)\};', ctx.read('lib/token.cpp'), re.S)
+    stdtypes = set(re.findall(r'"(\w+)"', mt.group(1))) if mt else set()
+    if 'void' not in stdtypes:
+        raise AnalysisBroken('lib/token.cpp: the stdTypes set (update_property_isStandardType) was not found')
+    for w, (types, line) in sorted(words.items()):
+        if w in stdtypes:
+            ok = 'eType' in types
+            ctx.ob('R33.3', 'type-word-lists-eType:%s' % w, ok, ('%r is a standard type word and tokTypes lists eType for it' % w) if ok else
+                   ('tools/matchcompiler.py:%s types %r as %s, but Token::update_property_isStandardType retypes a keyword token of the stdTypes set (lib/token.cpp) to eType: '
+                    'the compiled pattern never matches the word, the interpreted one does' % (line, w, types)), 'tools/matchcompiler.py:%s' % line)
     for w, (types, line) in sorted(words.items()):
         missing = []
         for lang, names in sorted(ret.items()):
